@@ -406,7 +406,7 @@ def one(ctx, rng, k):
 
 def run_shard(ctx):
     logging.getLogger("pymoca").setLevel(logging.ERROR)
-    for k in range(ctx.n(1500, 50000)):
+    for k in range(ctx.n(5000, 50000)):
         if ctx.out_of_time():
             break
         ctx.guarded(one, ctx, ctx.rng, k, timeout=30)
